@@ -220,9 +220,10 @@ def mutate(rng, text):
 # classification
 # ------------------------------------------------------------------------------------------------
 
-RX_SYN = re.compile(r"^At (line \d+|interactive input): ")
-RX_LEXF = re.compile(r"^Syntax error")
-RX_ERR = re.compile(r'^\(error "')
+# a line may start with backslashes the lexer ECHOed (flex default rule) before the message
+RX_SYN = re.compile(r"^\\*At (line \d+|interactive input): ")
+RX_LEXF = re.compile(r"^\\*Syntax error")
+RX_ERR = re.compile(r'^\\*\(error "')
 EXN_MAP = {"opensmt::LANonLinearException": "NonLinear", "opensmt::ArithDivisionByZeroException": "DivZero",
            "opensmt::InternalException": "Internal", "opensmt::strConvException": "StrConv", "std::logic_error": "LogicError",
            "std::out_of_range": "OutOfRange", "std::invalid_argument": "InvalidArg", "std::overflow_error": "Overflow",
@@ -236,15 +237,16 @@ def classify(out, err, rc):
     items, diag = [], False
     lines = out.split("\n")
     for n, l in enumerate(lines):
-        if RX_SYN.match(l) or l.startswith("Syntax error: expecting"):
+        l0 = l.lstrip("\\")
+        if RX_SYN.match(l) or l0.startswith("Syntax error: expecting"):
             items.append("s")
             diag = True
         elif RX_LEXF.match(l):
             items.append("l")
             diag = True
-        elif l == '(error "scanner")' and items and items[-1] == "s":
+        elif l0 == '(error "scanner")' and items and items[-1] == "s":
             continue
-        elif l.startswith('(error "pipe reader: unbalanced parentheses")'):
+        elif l0.startswith('(error "pipe reader: unbalanced parentheses")'):
             items.append("u")
             diag = True
         elif RX_ERR.match(l):
@@ -474,7 +476,7 @@ def run(ctx):
     # corpus first
     for p in sorted(glob.glob(os.path.join(vlib.VERIF, "corpus", "C18", "*.smt2"))):
         inputs.append(("corpus", open(p, "rb").read().decode("latin-1")))
-    n_t, n_g, n_r = (90, 25, 65) if ctx.quick else (3000, 600, 3000)
+    n_t, n_g, n_r = (90, 25, 65) if ctx.quick else (1200, 300, 1200)
     for _ in range(n_t):
         cmds = templates(rng)
         t = "\n".join(cmds) + "\n"
@@ -505,6 +507,7 @@ def run(ctx):
         ctx.extra["asan_build"] = bool(asan)
     seen_sigs = {}
     coarse = set()
+    asan_tick = [0]
     prompt_limit = 8.0
     t_limit = 10.0 if ctx.quick else 20.0
     model_lines, model_expect = [], []
@@ -565,8 +568,10 @@ def run(ctx):
                 tail = "~" if (mode == "P" and "exit" not in text and pending_at_eof(text)) else "."
                 model_lines.append("%s gen %s %s" % (mode, ",".join(its) if its else "-", tail))
                 model_expect.append((mode, text, rc, out, "A" if thrown else ("E%d" % rc)))
-            # thorough: sanitizers
-            if asan is not None:
+            # thorough: sanitizers (file mode, every third input + corpus)
+            if mode == "F":
+                asan_tick[0] += 1
+            if asan is not None and mode == "F" and (kind == "corpus" or asan_tick[0] % 3 == 0):
                 env = dict(os.environ, ASAN_OPTIONS="detect_leaks=0:abort_on_error=0:exitcode=99", UBSAN_OPTIONS="print_stacktrace=1:exitcode=98")
                 r = runner(asan, text, t_limit * 6, env)
                 if r[0] != "timeout":
